@@ -26,3 +26,20 @@ Definition c11_case_violations (fx : fixes) (p : program) : list N :=
 
 Definition c10_ok fx p := match c10_violations fx p with [] => true | _ => false end.
 Definition c11_ok fx p := negb (c11_getter_violation fx p) && match c11_case_violations fx p with [] => true | _ => false end.
+
+(* ------------------------------------------------------------------ *)
+(* Purely semantic facts about a program (no analyzer involved), for evaluating the properties directly on
+   the implementation's diagnostics:  cases of an entered switch that are not the last one, are not "empty"
+   in the sense of no-fallthrough, carry no fall-through comment, and whose consequent can complete normally
+   (so control falls into the next case): no-fallthrough has to report exactly these. *)
+Fixpoint sem_fall_cases (cs : cases) : list N :=
+  match cs with
+  | CNil => []
+  | CCons _ _ _ _ CNil => []
+  | CCons cp _ ft b r =>
+      (if cN (csem_l b) && negb (case_empty b) && negb ft then [cp] else []) ++ sem_fall_cases r
+  end.
+Definition sem_fallthrough_cases (p : program) : list N :=
+  let reach := prog_reach p in
+  flat_map (fun pc => if memN (fst pc) reach then sem_fall_cases (snd pc) else [])
+           (switches (all_stmts_l (p_body p))).
